@@ -735,6 +735,7 @@ macro_rules! define_gfgen { ($typename:ident, $fieldparams:ident, $submod:ident,
 
         /// Divide this value by `y`. If `y` is zero, then this sets this
         /// value to zero.
+        #[cfg_attr(pornin_crrl_verif_cut, inline(never))]
         fn set_div(&mut self, y: &Self) {
             // a <- y
             // b <- p (modulus)
@@ -1523,6 +1524,7 @@ macro_rules! define_gfgen { ($typename:ident, $fieldparams:ident, $submod:ident,
         // the unsigned little-endian representation of an integer, which
         // is then reduced modulo the field modulus. This function cannot
         // fail.
+        #[cfg_attr(pornin_crrl_verif_cut, inline(never))]
         pub fn set_decode_reduce(&mut self, buf: &[u8]) {
             let n = buf.len();
             if n == 0 {
